@@ -134,6 +134,10 @@ func (p *Packet) IsExternalTrigger() bool {
 // SetTimestamp puts timestamp `ts` into the header.
 func (p *Packet) SetTimestamp(ts *PacketTimestamp) error {
 	if p.timestamp == nil {
+		// The header length is an 8-bit field: refuse a timestamp that would silently wrap around it.
+		if int(p.headerLength)+16 > math.MaxUint8 {
+			return fmt.Errorf("header length %d leaves no room for a timestamp", p.headerLength)
+		}
 		p.headerLength += 16
 		p.packetLength += 16
 	}
